@@ -52,7 +52,7 @@ func VerifH07() {
 		nd.Assert(w.doSet(0, "a", w.freshVal(), 0) == nil, "H07.interfere")
 	}
 	errs := make([]error, n)
-	nd.SpawnRunsFirst(true)
+	nd.SpawnRunsFirst(P == 1) // with two preemptions both shapes are within the bound anyway
 	nd.SetPreemptionBound(P)
 	for i := 1; i < n; i++ {
 		i := i
@@ -152,7 +152,7 @@ func VerifH07b() {
 	}
 	w.commit(a, "H07b.first-committer")
 	errs := make([]error, 2)
-	nd.SpawnRunsFirst(true)
+	nd.SpawnRunsFirst(P == 1) // with two preemptions both shapes are within the bound anyway
 	nd.SetPreemptionBound(P)
 	go func() { errs[1] = w.txs[b].h.Commit(ctx) }()
 	errs[0] = w.txs[b].h.Commit(ctx)
@@ -210,7 +210,7 @@ func VerifH07c() {
 	}
 	// either side runs in the spawned goroutine (so that one preemption can stop either of them
 	// half-way while the other runs to completion)
-	nd.SpawnRunsFirst(true)
+	nd.SpawnRunsFirst(P == 1) // with two preemptions both shapes are within the bound anyway
 	nd.SetPreemptionBound(P)
 	if nd.Choice("spawned-side", 2) == 0 {
 		go writer()
